@@ -381,7 +381,9 @@ pub struct Sim {
     pub n_switches: u64,
     pub probes: BTreeMap<&'static str, u64>,
     pub total_sim_ns: u64,
-    pub keep_log: bool,
+    /// when false, events are hashed and counted but not stored
+    pub store_log: bool,
+    pub n_events: u64,
 }
 
 impl Sim {
@@ -400,7 +402,8 @@ impl Sim {
             n_switches: 0,
             probes: BTreeMap::new(),
             total_sim_ns: 0,
-            keep_log: true,
+            store_log: true,
+            n_events: 0,
         }
     }
     pub fn push(&mut self, th: u8, kind: EvKind) {
@@ -414,7 +417,10 @@ impl Sim {
         self.hash = self.hash.wrapping_mul(0x100000001b3);
         self.shape_hash ^= ev.shape();
         self.shape_hash = self.shape_hash.wrapping_mul(0x100000001b3);
-        self.log.push(ev);
+        self.n_events += 1;
+        if self.store_log {
+            self.log.push(ev);
+        }
         if self.log.len() > self.event_cap {
             // unwinds out of the library call that produced the event
             panic!("{}", EVENT_CAP_PANIC);
